@@ -73,8 +73,9 @@ Definition path_of_sx (a : sx) : list nat :=
   | _ => []
   end.
 
-(* c18.proof: (dag root (path ...)) -> proof BOC; pruning is by cell identity
-   (array index), as the Go code prunes by immutable-cell pointer *)
+(* c18.proof: (dag root (path ...)) -> proof BOC; pruning is by POSITION: the
+   cursor's pruned set holds the paths at which Prune was called (a cell that
+   occurs at several positions of the tree is pruned only there) *)
 Definition run_proof (a : sx) : sx :=
   match a with
   | SL [SL dag; SN root; SL paths] =>
@@ -83,14 +84,7 @@ Definition run_proof (a : sx) : sx :=
           let root := N.to_nat root in
           match tree_at (S (List.length cells)) cells root with
           | Some t =>
-              let pidx := flat_map (fun p => match index_of cells root (path_of_sx p) with
-                                             | Some i => [i] | None => [] end) paths in
-              let pruned (p : list nat) : bool :=
-                match index_of cells root p with
-                | Some i => existsb (Nat.eqb i) pidx
-                | None => false
-                end in
-              match create_proof sha256 pruned t with
+              match create_proof sha256 (in_paths (map path_of_sx paths)) t with
               | Ok p => ser_tree p
               | Err _ => SA "err"
               | Panic _ => SA "panic"
@@ -152,14 +146,9 @@ Definition run_multi (a : sx) : sx :=
           let root := N.to_nat root in
           match tree_at (S (List.length cells)) cells root with
           | Some t =>
-              (* two positions hold the same cell iff they reach the same array index *)
-              let same (p q : list nat) : bool :=
-                match index_of cells root p, index_of cells root q with
-                | Some i, Some j => Nat.eqb i j
-                | _, _ => false
-                end in
+              (* the pruned set of a cursor holds positions *)
               SL (map (fun r => sx_of_result r)
-                      (prover_run sha256 same t
+                      (prover_run sha256 path_eqb t
                          (flat_map (fun o => match op_of_sx o with Some x => [x] | None => [] end) ops)))
           | None => sx_err "tree"
           end
@@ -179,10 +168,16 @@ Definition run_conc (a : sx) : sx :=
   | _ => sx_err "conc"
   end.
 
+(* c18.viaboc: as c18.multi; on the Go side the source tree first goes through
+   SerializeBoc/DeserializeBoc (equal subtrees become ONE cell).  Positions
+   do not change, so the model is the same function. *)
+Definition run_viaboc (a : sx) : sx := run_multi a.
+
 (* dispatcher of this file's kinds (private extraction; Dispatch.v has the same lines) *)
 Definition run (kind : string) (a : sx) : sx :=
   if String.eqb kind "c18.proof" then run_proof a
   else if String.eqb kind "c18.key" then run_key a
   else if String.eqb kind "c18.multi" then run_multi a
   else if String.eqb kind "c18.conc" then run_conc a
+  else if String.eqb kind "c18.viaboc" then run_viaboc a
   else sx_err "kind".
